@@ -137,9 +137,13 @@ func (my *cacheImpl) Load(key any, loader Loader) *Future {
 
 		next = newFuture(predecessor)
 		futures.d[key] = next
-		my.sendJob(cacheJob{loader: loader, key: key, future: next})
 	}
 	futures.Unlock()
+
+	// 发送job可能因为jobChan已满而阻塞, 因此必须在释放锁之后进行, 否则会与正在清理的worker相互等待
+	if next != nil {
+		my.sendJob(cacheJob{loader: loader, key: key, future: next})
+	}
 
 	//fmt.Printf("lastStatus=%v \n", lastStatus)
 	switch lastStatus {
